@@ -103,6 +103,75 @@ example : dget (buildUnitMap (fun c => c == 32)
     [[([77, 98], [109, 98, 124, 109, 98, 105, 116]), ([77, 66], [109, 66, 124, 109, 98])]]) [109, 98] = some [77, 98] := by
   decide
 
+/-! ### the value side: `NumberWithUnitParser.parse` with the number part (`parseFull`) -/
+
+/-- `parseFull` without a half result looks the unit up exactly as `parseUnit` (so every unit theorem above applies) and
+hands out, unchanged, what the internal number parser answered for the number: `value.number = resolution_str` of the
+number, `ret.resolution_str = "<number> <unit>"` (`None` printed as `None`). No keys at all: `IndexError`. -/
+theorem parseFull_unit (sp : Nat → Bool) (lower : Str → Str) (um : Dict) (conn text : Str) (ns : Int) (nl : Nat)
+    (numRes : Option Str) :
+    parseFull sp lower um conn text ns nl numRes none =
+      match (unitKeys sp text ns nl).getLast? with
+      | none => .indexError
+      | some _ =>
+        match parseUnit sp lower um conn text ns nl with
+        | some u => .unitValue numRes u (strip sp (numRes.getD pyNone ++ [32] ++ u))
+        | none => .noValue := by
+  rw [parseUnit_eq_lookup]
+  unfold parseFull
+  cases (unitKeys sp text ns nl).getLast? with
+  | none => rfl
+  | some last => simp only []; cases lookupUnit sp lower um conn text last <;> rfl
+
+/-- C05(n) **the entity keeps the number**: number followed by a separator and a spelling the unit map knows — the value
+handed out is exactly the internal number parser's `resolution_str` for the numeral (whatever that parser is: it is the
+C03/C04 subject), paired with the mapped unit. -/
+theorem parse_value_is_number_resolution (sp : Nat → Bool) (lower : Str → Str) (unitMap : Dict) (num rest u : Str)
+    (numRes : Option Str) (hn : num ≠ []) (hr : rest ≠ []) (hu : u ≠ [])
+    (hb : deleteBrackets (strip sp rest) = strip sp rest)
+    (hm : dget unitMap (strip sp rest) = some u) :
+    parseFull sp lower unitMap [] (num ++ rest) 0 num.length numRes none =
+      .unitValue numRes u (strip sp (numRes.getD pyNone ++ [32] ++ u)) := by
+  rw [parseFull_unit, parse_suffix_unit sp lower unitMap num rest u hn hr hu hb hm, key_assembly_suffix sp num rest hn]
+  simp [hr]
+
+/-- C05(o) **`half` adds .5**: text = numeral ++ spelling ++ half word (the Chinese half expansion: `5元半`), the internal
+parser answers `r` for the numeral and `0.5` for the half word: the half word is cut off the unit key, the unit is the
+spelling's, and the number handed out is `r ++ ".5"` — for an integer numeral `r` the decimal literal of `r + 1/2`. -/
+theorem parse_half_adds_point_five (sp : Nat → Bool) (lower : Str → Str) (unitMap : Dict) (num form ht r u : Str)
+    (hn : num ≠ []) (hf : form ≠ []) (hh : ht ≠ []) (hu : u ≠ [])
+    (hs : strip sp (form ++ ht) = form ++ ht) (hb : deleteBrackets form = form)
+    (hm : dget unitMap form = some u) :
+    parseFull sp lower unitMap [] (num ++ (form ++ ht)) 0 num.length (some r) (some ⟨ht, ht.length, some [48, 46, 53]⟩) =
+      .unitValue (some (r ++ [46, 53])) u (strip sp (r ++ [46, 53] ++ [32] ++ u)) := by
+  have hk := key_assembly_suffix sp num (form ++ ht) hn
+  have hne : form ++ ht ≠ [] := by simp [hf]
+  simp only [hne, ne_eq, not_false_eq_true, if_true, hs] at hk
+  have hum : unitMap ≠ [] := by intro e; rw [e] at hm; simp [dget] at hm
+  have htext : num ++ (form ++ ht) ≠ [] := by simp [hn]
+  unfold parseFull
+  simp only [hk, List.getLast?_singleton, dropHalf_append form ht _ hh]
+  have hl : lookupUnit sp lower unitMap [] (num ++ (form ++ ht)) form = some u := by
+    simp [lookupUnit, hb, hm, hu, hum, htext]
+  simp [hl]
+
+/- Natural statement "with a half word the number handed out is the numeral's value + 0.5" is FALSE of the code: the two
+   resolution strings are concatenated (`resolution_str += half.resolution_str[1:]`), not added. -/
+
+/-- … it holds for integer numerals (`parse_half_adds_point_five`: `r ++ ".5"`); witnesses of the failure, text `1.5元半`
+(a decimal numeral: `1.5` + `.5` = the string `1.5.5`) and a numeral for which the internal parser has no resolution
+(`None + str`: TypeError, the model's parse swallows it and the query returns nothing). -/
+theorem parse_half_concatenates_witness :
+    let um : Dict := [([20803], [89])]
+    parseFull (fun c => c == 32) id um [] [49, 46, 53, 20803, 21322] 0 3 (some [49, 46, 53]) (some ⟨[21322], 1, some [48, 46, 53]⟩) =
+      .unitValue (some [49, 46, 53, 46, 53]) [89] [49, 46, 53, 46, 53, 32, 89] ∧
+    parseFull (fun c => c == 32) id um [] [49, 46, 53, 20803, 21322] 0 3 none (some ⟨[21322], 1, some [48, 46, 53]⟩) = .typeError := by
+  decide
+
+/-- `7 kg` → UnitValue('7', 'Kilogram'), resolution_str `7 Kilogram`. -/
+example : parseFull (fun c => c == 32) id [([107, 103], [75])] [] [55, 32, 107, 103] 0 1 (some [55]) none =
+    .unitValue (some [55]) [75] [55, 32, 75] := by decide
+
 end RTV.Unit
 
 /-! ## The extractor: `NumberWithUnitExtractor.extract` -/
@@ -332,6 +401,30 @@ theorem extract_then_parse_unit (c : Cfg) (lower : Str → Str) (unitMap : Unit.
   · rw [List.append_assoc]
     exact Unit.parse_suffix_unit c.sp lower unitMap num (sep ++ form) u hn (by simp [hf]) hu
       (by rw [hstrip]; exact hb) (by rw [hstrip]; exact hmap)
+
+/-- C05(j′) **extractor → parser, unit AND value** (`extract_then_parse_value`): in the situation of
+`extract_then_parse_unit` the one result the loop produces, parsed in full, is `UnitValue(number, unit)` where `number` is
+the internal number parser's `resolution_str` for exactly the numeral of the source (the number the extractor attached has
+text = numeral) and `unit` the spelling's unit. -/
+theorem extract_then_parse_value (c : Cfg) (lower : Str → Str) (unitMap : Unit.Dict) (num sep form u : Str)
+    (numParse : Str → Option Str)
+    (pm sm : List MR) (nonUnit : List (Nat × Nat))
+    (hn : num ≠ []) (hf : form ≠ []) (hsep : ∀ ch ∈ sep, c.sp ch = true)
+    (hsm : ∀ m ∈ sm, m.start + m.len ≤ (num ++ sep ++ form).length)
+    (hm : (⟨num.length + sep.length, form.length, form⟩ : MR) ∈ sm)
+    (hnu : (c.isDimension && insideNonUnit nonUnit 0 (num ++ sep ++ form).length) = false)
+    (hstrip : Unit.strip c.sp (sep ++ form) = form) (hb : Unit.deleteBrackets form = form)
+    (hmap : Unit.dget unitMap form = some u) (hu : u ≠ []) :
+    ∃ er d, (coreLoop c (num ++ sep ++ form) pm sm nonUnit [⟨0, num.length, num⟩]).result = [er] ∧ er.data = some d ∧
+      Unit.parseFull c.sp lower unitMap [] er.text d.start d.len (numParse d.text) none =
+        .unitValue (numParse num) u (Unit.strip c.sp ((numParse num).getD Unit.pyNone ++ [32] ++ u)) := by
+  obtain ⟨h1, _, _⟩ := extract_then_parse_unit c lower unitMap num sep form u pm sm nonUnit hn hf hsep hsm hm hnu hstrip hb
+    hmap hu
+  refine ⟨_, ⟨0, num.length, num⟩, h1, rfl, ?_⟩
+  show Unit.parseFull c.sp lower unitMap [] (num ++ sep ++ form) 0 num.length (numParse num) none = _
+  rw [List.append_assoc]
+  exact Unit.parse_value_is_number_resolution c.sp lower unitMap num (sep ++ form) u (numParse num) hn (by simp [hf]) hu
+    (by rw [hstrip]; exact hb) (by rw [hstrip]; exact hmap)
 
 /-! ### `_select_candidates` (currency) -/
 
